@@ -47,6 +47,35 @@ func init() {
 		return 0, err
 	}`, New: `	_, _ = r.rs.Seek(readBytePos, io.SeekStart)
 	var err error`, ExpectKey: "Seek"})
+	// ---- C13
+	AddControl(Control{ID: "c13-shift-unguarded", Prop: "C13", Rule: "C13.pre", File: "pkg/interp/bitops.go",
+		Old: `		func(l, r int) any {
+			if r < 0 {
+				return fmt.Errorf("bsr: negative shift count %d", r)
+			}
+			return l >> r
+		},`, New: `		func(l, r int) any {
+			return l >> r
+		},`, ExpectKey: "shift"})
+	AddControl(Control{ID: "c13-repeat-negative", Prop: "C13", Rule: "C13.pre", File: "format/toml/toml.go",
+		Old: `strings.Repeat(" ", max(0, opts.Indent))`, New: `strings.Repeat(" ", opts.Indent)`, ExpectKey: "Repeat"})
+	AddControl(Control{ID: "c13-unit-zero", Prop: "C13", Rule: "C13.pre", File: "pkg/interp/binary.go",
+		Old: `	if opts.Unit <= 0 || opts.PadToUnits < 0 {`, New: `	if opts.Unit < 0 || opts.PadToUnits < 0 {`, ExpectKey: "div"})
+	AddControl(Control{ID: "c13-make-negative", Prop: "C13", Rule: "C13.pre", File: "pkg/interp/interp.go",
+		Old: `	if l < 0 {
+		return gojq.NewIter(fmt.Errorf("negative read length %d", l))
+	}
+`, New: ``, ExpectKey: "make"})
+	AddControl(Control{ID: "c13-clamp-swapped", Prop: "C13", Rule: "C13.inv", File: "pkg/interp/interp.go",
+		Old: `	opts.Addrbase = mathx.Clamp(2, 36, opts.Addrbase)`, New: `	opts.Addrbase = mathx.Clamp(opts.Addrbase, 2, 36)`, ExpectKey: "Addrbase"})
+	AddControl(Control{ID: "c13-linebytes-zero", Prop: "C13", Rule: "C13.inv", File: "pkg/interp/interp.go",
+		Old: `	opts.LineBytes = max(1, opts.LineBytes)`, New: `	opts.LineBytes = max(0, opts.LineBytes)`, ExpectKey: "LineBytes"})
+	AddControl(Control{ID: "c13-comma-empty", Prop: "C13", Rule: "C13.pre", File: "format/csv/csv.go",
+		Old: `	if opts.Comma != "" {
+		w.Comma = rune(opts.Comma[0])
+	}`, New: `	w.Comma = rune(opts.Comma[0])`, ExpectKey: "stridx"})
+	AddControl(Control{ID: "c13-panic-added", Prop: "C13", Rule: "C13.panic", File: "pkg/interp/bitops.go",
+		Old: `		return &gojqx.UnaryTypeError{Name: "bnot", V: c}`, New: `		panic("bnot: unsupported type")`, ExpectKey: "bnot"})
 	// ---- C18
 	AddControl(Control{ID: "c18-global-cache", Prop: "C18", Rule: "C18.globals", File: "format/csv/csv.go",
 		Old: `func decodeCSV(d *decode.D) any {`, New: `var lastRows = map[string]int{}
